@@ -36,6 +36,10 @@ fn render_err(e: &AisleConfError) -> String {
     }
 }
 
+/// development aid: `C11_ORIG=1` compares the code with the model of the code BEFORE the repairs (ops `*_orig`),
+/// to validate lean/CookModel/Side/AisleOrig.lean against an unrepaired tree. Never set by ./check.
+fn sfx() -> &'static str { if std::env::var_os("C11_ORIG").is_some() { "_orig" } else { "" } }
+
 fn show(s: &str) -> String { format!("aisle file {:?}", s) }
 
 /// offset of a borrowed name inside the input, if it is a slice of it
@@ -124,7 +128,7 @@ fn oracle_ok(ctx: &mut Ctx, input: &str, c: &AisleConf) {
             format!("rt {} {}", enc_text(&text), again.split(':').next().unwrap())
         }
     };
-    ctx.case(format!("aisle_rt {}", enc_text(input)), rt_reply, !c.categories.is_empty(), desc.clone());
+    ctx.case(format!("aisle_rt{} {}", sfx(), enc_text(input)), rt_reply, !c.categories.is_empty(), desc.clone());
 }
 
 /// lookup oracle + correspondence (after the round trip: `ingredients_info` writes the `len` cache)
@@ -146,7 +150,7 @@ fn lookups(ctx: &mut Ctx, input: &str, c: &AisleConf, probes: &[&str], max_cases
         if sent < max_cases {
             sent += 1;
             let reply = info.get(n).map(|x| format!("some {} {} {}", enc_text(x.name), enc_text(x.common_name), enc_text(x.category))).unwrap_or("none".into());
-            ctx.case(format!("aisle_lookup {} {}", enc_text(input), enc_text(n)), reply, true, format!("{desc}, lookup {:?}", n));
+            ctx.case(format!("aisle_lookup{} {} {}", sfx(), enc_text(input), enc_text(n)), reply, true, format!("{desc}, lookup {:?}", n));
         }
     }}}
     if info.len() != total { ctx.oracle_fail(desc.clone(), format!("{} entries for {total} names", info.len()), "c11:lookup_size".into()); }
@@ -154,14 +158,14 @@ fn lookups(ctx: &mut Ctx, input: &str, c: &AisleConf, probes: &[&str], max_cases
     for p in probes {
         if all.contains(p) { continue; }
         if info.get(p).is_some() { ctx.oracle_fail(desc.clone(), format!("lookup of the absent name {:?} finds something", p), "c11:lookup_absent".into()); }
-        if total > 0 { ctx.case(format!("aisle_lookup {} {}", enc_text(input), enc_text(p)), "none".into(), false, format!("{desc}, lookup {:?}", p)); }
+        if total > 0 { ctx.case(format!("aisle_lookup{} {} {}", sfx(), enc_text(input), enc_text(p)), "none".into(), false, format!("{desc}, lookup {:?}", p)); }
     }
     ctx.count_n("lookups_checked", total as u64);
 }
 
 pub fn one(ctx: &mut Ctx, input: &str, max_lookup_cases: usize) {
     let desc = show(input);
-    let op = format!("aisle {}", enc_text(input));
+    let op = format!("aisle{} {}", sfx(), enc_text(input));
     let r = guarded(|| aisle::parse(input));
     match r {
         Err(p) => {
